@@ -192,6 +192,7 @@ def canon_program(prog):
 
 
 def build_tree(case):
+    gen.set_alphabet(case.get("alphabet", "ascii"), case.get("seed", 0))
     """The real tree of the case: from_path, then slicing (part of the tree), then the optional
     sort_contraction_indices(priority).  No other history (histories are C02's subject)."""
     net = gen.Net.from_json(case["net"])
@@ -252,7 +253,8 @@ def gen_case(rng, tier, small=False):
     sl = sorted(rng.sample(inds, min(k, len(inds))))
     return {"net": net.json(), "tree": tree, "order": rng.choice(ORDERS),
             "prefer_einsum": rng.random() < 0.35, "sort": rng.choice(SORTS),
-            "impl": rng.choice(IMPLS), "slice": sl, "seed": rng.randrange(1 << 30)}
+            "impl": rng.choice(IMPLS), "slice": sl, "seed": rng.randrange(1 << 30),
+            "alphabet": rng.choice(gen.ALPHABETS)}
 
 
 def guards_ok(net):
